@@ -84,10 +84,10 @@ def r2_legality(run, F):
             continue
         b = F.body("alpha::value_type::ValueType::" + fn)
         if want and want[0][0] == "expr":
-            got = [["expr", None, hirq.summarize_bool(b["hir"].get("e", {}))]]
+            got = [["expr", None, hirq.summarize_bool(b["hir"].get("e", {}), hirq.canon_params(b))]]
         else:
             m = hirq.find_match(b, min_arms=2)
-            got = [["/".join(x.split("::")[-1] for x in k), g, o] for k, g, o in hirq.nested_table(m)]
+            got = [["/".join(x.split("::")[-1] for x in k), g, o] for k, g, o in hirq.nested_table(m, (), hirq.canon_params(b))]
         gs, ws = set(json.dumps(r) for r in got), set(json.dumps(r) for r in want)
         for r in sorted(ws - gs):
             run.ob("R2-LEGALITY-MATRIX", "%s|missing %s" % (fn, r), False, F.where(b), "%s lost the reviewed row %s" % (fn, r))
@@ -238,6 +238,9 @@ def r6_containment(run, F):
     # E416 names a constant: it must be one that is part of the cycle, i.e. one that itself contains the container
     f1 = F.body(AN + "found_container_1")
     tested = False
+    pnames = [q.get("name") for q in f1.get("params", []) if q.get("name") != "self"]
+    run.require(len(pnames) == 3, "found_container_1: expected (container, member, containee) parameters, found %s" % pnames)
+    container_param = pnames[0]
     for b in [f1] + [x for x in C.bodies.values() if x["npath"].startswith(AN + "found_container_1::{closure") and "hir" in x]:
         for x in walk(b["hir"]):
             if x.get("k") == "MethodCall" and x.get("name") == "contains":
@@ -245,9 +248,16 @@ def r6_containment(run, F):
                 a = hirq.unwrap_trivial(x["a"][0]) if x.get("a") else {}
                 while a.get("k") == "AddrOf":
                     a = hirq.unwrap_trivial(a["e"])
-                if r.get("k") == "Field" and r.get("name") == "contained_ids" and a.get("k") == "Path" and a.get("res") == "container_id":
+                if r.get("k") == "Field" and r.get("name") == "contained_ids" and a.get("k") == "Path" and a.get("rk") == "Local":
+                    # the argument is the container's id: a local initialised from <first parameter>.resolution_id
+                    from rules import origins as _or
+                    oa = _or.origins(f1["hir"], a, f1.get("params", ()))
+                    is_container_id = ("field", "resolution_id") in oa and ("param", container_param) in oa and not any(
+                        k[0] == "param" and k[1] not in (container_param, "self") for k in oa)
                     base = hirq.unwrap_trivial(r.get("e") or r.get("base") or {})
-                    if base.get("k") == "Path" and base.get("res") not in ("container", "other"):
+                    # ... and the receiver is an item of an iteration over self.containers (a closure parameter), not the container itself
+                    ob_ = _or.origins(f1["hir"], base, f1.get("params", ())) if base.get("k") == "Path" else set()
+                    if is_container_id and ("closureparam",) in ob_ and ("field", "containers") in ob_:
                         tested = True
     run.ob("R6-CONTAINMENT-VISITS", "E416 constant is in the cycle", tested, F.where(f1),
            "the constant named by E416 (CyclicalStructureWithConstant) must be tested for containing the container (x.contained_ids.contains(&container_id)); "
